@@ -75,7 +75,8 @@ Qed.
 Definition R (a : astate) (s1 s2 : state) : Prop :=
   sc s1 gsc = a_c a /\ sc s2 gsc = a_c a /\ sc s1 gsd = a_d a /\ sc s2 gsd = a_d a /\
   (forall f, memf f (a_s a) = true -> sc s1 f = sc s2 f) /\
-  (forall p, memf p (a_p a) = true -> pstat s1 p = PLive /\ pstat s2 p = PLive).
+  (forall p, memf p (a_p a) = true -> pstat s1 p = PLive /\ pstat s2 p = PLive) /\
+  (forall p, memf p (a_n a) = true -> pt s1 p = None /\ pt s2 p = None).
 
 Definition RX (a : astate) (x1 x2 : xstate) : Prop :=
   R a (xs x1) (xs x2) /\ xobs x1 = xobs x2 /\ xh x1 = xh x2.
@@ -99,11 +100,12 @@ Lemma R_weaken a b s1 s2 :
   a_c b = a_c a -> a_d b = a_d a ->
   (forall f, memf f (a_s b) = true -> memf f (a_s a) = true) ->
   (forall f, memf f (a_p b) = true -> memf f (a_p a) = true) ->
+  (forall f, memf f (a_n b) = true -> memf f (a_n a) = true) ->
   R a s1 s2 -> R b s1 s2.
 Proof.
-  intros Hc Hd Hs Hp (A&B&C&D&E&F). unfold R. rewrite Hc, Hd. repeat split; auto.
-  - apply F; auto.
-  - apply F; auto.
+  intros Hc Hd Hs Hp Hn (A&B&C&D&E&F&G). unfold R. rewrite Hc, Hd.
+  split; [assumption|]. split; [assumption|]. split; [assumption|]. split; [assumption|].
+  split; [auto|]. split; [intros p H; apply F; auto | intros p H; apply G; auto].
 Qed.
 
 Lemma ains_new a l x1 x2 : RX a x1 x2 -> Rset (ains a l) x1 x2.
@@ -113,7 +115,8 @@ Proof.
   - destruct (Z.eqb (a_c a) (a_c b) && Z.eqb (a_d a) (a_d b)) eqn:E.
     + apply andb_true_iff in E. destruct E as [E1 E2]. apply Z.eqb_eq in E1, E2.
       eexists. split; [left; reflexivity|]. apply mkRX; [|assumption|assumption].
-      eapply R_weaken; [| | | | exact HR]; cbn; auto.
+      eapply R_weaken; [| | | | | exact HR]; cbn; auto.
+      * intros f H. apply memf_inter in H. tauto.
       * intros f H. apply memf_inter in H. tauto.
       * intros f H. apply memf_inter in H. tauto.
     + destruct IH as (c & Hin & Hc). exists c. split; [right; assumption | assumption].
@@ -124,7 +127,8 @@ Proof.
   cbn. destruct (Z.eqb (a_c a) (a_c b) && Z.eqb (a_d a) (a_d b)) eqn:E.
   - destruct Hin as [->|Hin].
     + eexists. split; [left; reflexivity|]. apply mkRX; [|assumption|assumption].
-      eapply R_weaken; [| | | | exact HR]; cbn; auto.
+      eapply R_weaken; [| | | | | exact HR]; cbn; auto.
+      * intros f H. apply memf_inter in H. tauto.
       * intros f H. apply memf_inter in H. tauto.
       * intros f H. apply memf_inter in H. tauto.
     + exists c. split; [right; assumption | apply mkRX; assumption].
@@ -167,7 +171,7 @@ Qed.
 (* ------------------------------------------------------------ expressions *)
 Lemma R_sdef a s1 s2 f : R a s1 s2 -> sdef a f = true -> sc s1 f = sc s2 f.
 Proof.
-  intros (A&B&C&D&E&F) H. unfold sdef, is_gs in H.
+  intros (A&B&C&D&E&F&G) H. unfold sdef, is_gs in H.
   apply orb_true_iff in H. destruct H as [H|H]; [|auto].
   apply orb_true_iff in H. destruct H as [H|H]; apply fld_eqb_eq in H; subst; congruence.
 Qed.
@@ -228,14 +232,14 @@ Proof.
   rewrite fld_eqb_sym, H1, fld_eqb_sym, H2. auto.
 Qed.
 
-Ltac splitR := unfold R; split; [|split; [|split; [|split; [|split]]]].
+Ltac splitR := unfold R; split; [|split; [|split; [|split; [|split; [|split]]]]].
 
 Lemma R_set a s1 s2 f v1 v2 :
   is_gs f = false -> v1 = v2 -> R a s1 s2 ->
-  R (mka (a_c a) (a_d a) (addf f (a_s a)) (a_p a)) (upd_sc s1 f v1) (upd_sc s2 f v2).
+  R (mka (a_c a) (a_d a) (addf f (a_s a)) (a_p a) (a_n a)) (upd_sc s1 f v1) (upd_sc s2 f v2).
 Proof.
-  intros Hg -> (A&B&C&D&E&F). destruct (is_gs_false _ Hg) as [G1 G2].
-  splitR; unfold upd_sc; cbn [sc pt ep a_c a_d a_s a_p]; rewrite ?G1, ?G2; auto.
+  intros Hg -> (A&B&C&D&E&F&G). destruct (is_gs_false _ Hg) as [G1 G2].
+  splitR; unfold upd_sc; cbn [sc pt ep a_c a_d a_s a_p a_n]; rewrite ?G1, ?G2; auto.
   intros g Hg'. apply memf_addf in Hg'. destruct (fld_eqb g f) eqn:Eg; [reflexivity|].
   destruct Hg' as [->|Hg']; [rewrite fld_eqb_refl in Eg; discriminate | auto].
 Qed.
@@ -243,16 +247,16 @@ Qed.
 Lemma R_set_gs a s1 s2 f v :
   is_gs f = true -> R a s1 s2 -> R (set_gs a f v) (upd_sc s1 f v) (upd_sc s2 f v).
 Proof.
-  intros Hg (A&B&C&D&E&F). unfold set_gs, is_gs in *.
+  intros Hg (A&B&C&D&E&F&G). unfold set_gs, is_gs in *.
   assert (Hne : fld_eqb gsc gsd = false) by reflexivity.
   assert (Hne' : fld_eqb gsd gsc = false) by reflexivity.
   destruct (fld_eqb f gsc) eqn:E1.
   - apply fld_eqb_eq in E1. subst f.
-    splitR; unfold upd_sc; cbn [sc pt ep a_c a_d a_s a_p]; rewrite ?fld_eqb_refl, ?Hne'; auto.
+    splitR; unfold upd_sc; cbn [sc pt ep a_c a_d a_s a_p a_n]; rewrite ?fld_eqb_refl, ?Hne'; auto.
     intros g Hg'. destruct (fld_eqb g gsc); auto.
   - destruct (fld_eqb f gsd) eqn:E2; [|discriminate].
     apply fld_eqb_eq in E2. subst f.
-    splitR; unfold upd_sc; cbn [sc pt ep a_c a_d a_s a_p]; rewrite ?fld_eqb_refl, ?Hne; auto.
+    splitR; unfold upd_sc; cbn [sc pt ep a_c a_d a_s a_p a_n]; rewrite ?fld_eqb_refl, ?Hne; auto.
     intros g Hg'. destruct (fld_eqb g gsd); auto.
 Qed.
 
@@ -261,22 +265,27 @@ Proof. reflexivity. Qed.
 
 Lemma R_alloc a s1 s2 p :
   R a s1 s2 ->
-  R (mka (a_c a) (a_d a) (a_s a) (addf p (a_p a))) (upd_pt s1 p (Some (ep s1 (fst p)))) (upd_pt s2 p (Some (ep s2 (fst p)))).
+  R (mka (a_c a) (a_d a) (a_s a) (addf p (a_p a)) (removef p (a_n a)))
+    (upd_pt s1 p (Some (ep s1 (fst p)))) (upd_pt s2 p (Some (ep s2 (fst p)))).
 Proof.
-  intros (A&B&C&D&E&F). splitR; cbn [sc pt ep a_c a_d a_s a_p upd_pt]; auto.
-  intros q H. apply memf_addf in H. unfold pstat; cbn [pt ep upd_pt].
-  destruct (fld_eqb q p) eqn:Ep.
-  - apply fld_eqb_eq in Ep. subst. rewrite !Z.eqb_refl. auto.
-  - destruct H as [->|H]; [rewrite fld_eqb_refl in Ep; discriminate|]. apply F in H. exact H.
+  intros (A&B&C&D&E&F&G). splitR; cbn [sc pt ep a_c a_d a_s a_p a_n upd_pt]; auto.
+  - intros q H. apply memf_addf in H. unfold pstat; cbn [pt ep upd_pt].
+    destruct (fld_eqb q p) eqn:Ep.
+    + apply fld_eqb_eq in Ep. subst. rewrite !Z.eqb_refl. auto.
+    + destruct H as [->|H]; [rewrite fld_eqb_refl in Ep; discriminate|]. apply F in H. exact H.
+  - intros q H. apply memf_removef in H. destruct H as [H Hn].
+    destruct (fld_eqb q p) eqn:Ep; [apply fld_eqb_eq in Ep; contradiction|]. apply G. exact H.
 Qed.
 
 Lemma R_null a s1 s2 p :
   R a s1 s2 ->
-  R (mka (a_c a) (a_d a) (a_s a) (removef p (a_p a))) (upd_pt s1 p None) (upd_pt s2 p None).
+  R (mka (a_c a) (a_d a) (a_s a) (removef p (a_p a)) (addf p (a_n a))) (upd_pt s1 p None) (upd_pt s2 p None).
 Proof.
-  intros (A&B&C&D&E&F). splitR; cbn [sc pt ep a_c a_d a_s a_p upd_pt]; auto.
-  intros q H. apply memf_removef in H. destruct H as [H Hn]. unfold pstat; cbn [pt ep upd_pt].
-  destruct (fld_eqb q p) eqn:Ep; [apply fld_eqb_eq in Ep; contradiction|]. apply F in H. exact H.
+  intros (A&B&C&D&E&F&G). splitR; cbn [sc pt ep a_c a_d a_s a_p a_n upd_pt]; auto.
+  - intros q H. apply memf_removef in H. destruct H as [H Hn]. unfold pstat; cbn [pt ep upd_pt].
+    destruct (fld_eqb q p) eqn:Ep; [apply fld_eqb_eq in Ep; contradiction|]. apply F in H. exact H.
+  - intros q H. apply memf_addf in H.
+    destruct (fld_eqb q p) eqn:Ep; [auto|]. destruct H as [->|H]; [rewrite fld_eqb_refl in Ep; discriminate|]. apply G. exact H.
 Qed.
 
 Lemma pstat_abort_other s o p : fst p <> o -> pstat (abort s o) p = pstat s p.
@@ -288,6 +297,14 @@ Proof.
   apply fld_eqb_eq in E. subst. cbn in Hn. contradiction.
 Qed.
 
+Lemma pt_abort s o p : p <> (OD, "marker_list"%string) -> pt (abort s o) p = pt s p.
+Proof.
+  intro Hn. unfold abort. destruct o; cbn [pt upd_sc upd_pt]; try reflexivity.
+  destruct (fld_eqb p (OD, "marker_list"%string)) eqn:E; [apply fld_eqb_eq in E; contradiction | reflexivity].
+Qed.
+Lemma pt_abort_marker_list s : pt (abort s OD) (OD, "marker_list"%string) = None.
+Proof. reflexivity. Qed.
+
 Lemma R_abort a s1 s2 o :
   R a s1 s2 ->
   match ana (CAbort o) a with
@@ -295,24 +312,33 @@ Lemma R_abort a s1 s2 o :
   | None => False
   end.
 Proof.
-  intros (A&B&C&D&E&F).
+  intros (A&B&C&D&E&F&G).
   assert (Hne : fld_eqb gsd gsc = false) by reflexivity.
   assert (Hne' : fld_eqb gsc gsd = false) by reflexivity.
+  assert (Nul : forall q, memf q (a_n a) = true -> pt (abort s1 o) q = None /\ pt (abort s2 o) q = None).
+  { intros q H. destruct (G q H) as [G1 G2].
+    destruct (fld_eqb q (OD, "marker_list"%string)) eqn:Eq.
+    - apply fld_eqb_eq in Eq. subst q. destruct o; unfold abort; cbn [pt upd_sc upd_pt]; rewrite ?fld_eqb_refl; auto.
+    - apply fld_eqb_neq in Eq. rewrite !pt_abort by assumption. auto. }
   destruct o; cbn [ana].
   - eexists. split; [reflexivity|].
-    splitR; cbn [a_c a_d a_s a_p]; unfold abort; cbn [sc upd_sc]; rewrite ?fld_eqb_refl, ?Hne; auto.
+    splitR; cbn [a_c a_d a_s a_p a_n]; try exact Nul; unfold abort; cbn [sc upd_sc]; rewrite ?fld_eqb_refl, ?Hne; auto.
     + intros g Hg. destruct (fld_eqb g gsc); auto.
     + intros q H. apply memf_remove_obj in H. destruct H as [H Hn].
       pose proof (pstat_abort_other s1 OC q Hn) as P1. pose proof (pstat_abort_other s2 OC q Hn) as P2.
       unfold abort in P1, P2. rewrite P1, P2. apply F. assumption.
   - eexists. split; [reflexivity|].
-    splitR; cbn [a_c a_d a_s a_p]; unfold abort; cbn [sc upd_sc upd_pt]; rewrite ?fld_eqb_refl, ?Hne'; auto.
-    + intros g Hg. destruct (fld_eqb g gsd); auto.
+    splitR; cbn [a_c a_d a_s a_p a_n].
+    + unfold abort; cbn [sc upd_sc upd_pt]. rewrite Hne'. exact A.
+    + unfold abort; cbn [sc upd_sc upd_pt]. rewrite Hne'. exact B.
+    + unfold abort; cbn [sc upd_sc upd_pt]. rewrite fld_eqb_refl. reflexivity.
+    + unfold abort; cbn [sc upd_sc upd_pt]. rewrite fld_eqb_refl. reflexivity.
+    + intros g Hg. unfold abort; cbn [sc upd_sc upd_pt]. destruct (fld_eqb g gsd); auto.
     + intros q H. apply memf_remove_obj in H. destruct H as [H Hn].
-      pose proof (pstat_abort_other s1 OD q Hn) as P1. pose proof (pstat_abort_other s2 OD q Hn) as P2.
-      unfold abort in P1, P2. rewrite P1, P2. apply F. assumption.
+      rewrite (pstat_abort_other s1 OD q Hn), (pstat_abort_other s2 OD q Hn). apply F. assumption.
+    + intros q H. apply memf_addf in H. destruct H as [->|H]; [split; apply pt_abort_marker_list | apply Nul; exact H].
   - eexists. split; [reflexivity|].
-    splitR; cbn [a_c a_d a_s a_p]; unfold abort; cbn [sc]; auto.
+    splitR; cbn [a_c a_d a_s a_p a_n]; try exact Nul; unfold abort; cbn [sc]; auto.
     intros q H. apply memf_remove_obj in H. destruct H as [H Hn].
     pose proof (pstat_abort_other s1 OT q Hn) as P1. pose proof (pstat_abort_other s2 OT q Hn) as P2.
     unfold abort in P1, P2. rewrite P1, P2. apply F. assumption.
@@ -368,14 +394,17 @@ Proof.
     split; [|split; assumption]. cbn [xs set_xs]. apply R_null. assumption.
   - (* CDeref *)
     cbn [ana] in Ha. destruct (memf p (a_p a)) eqn:Em; [|discriminate]. inversion Ha. subst r.
-    destruct HR as (A&B&C&D&E&F). destruct (F _ Em) as [F1 F2].
+    destruct HR as (A&B&C&D&E&F&G). destruct (F _ Em) as [F1 F2].
     cbn [exec]. rewrite F1, F2. cbn [fst snd]. repeat split; auto. apply Rset_one. assumption.
   - (* CIfNull *)
-    cbn [ana] in Ha. destruct (memf p (a_p a)) eqn:Em; [|discriminate].
-    destruct HR as (A&B&C&D&E&F). destruct (F _ Em) as [F1 F2].
-    cbn [exec]. unfold pstat in F1, F2.
-    destruct (pt (xs x1) p); [|discriminate]. destruct (pt (xs x2) p); [|discriminate].
-    eapply IHc2; [exact Ha | exact HX].
+    cbn [ana] in Ha. destruct HR as (A&B&C&D&E&F&G). cbn [exec].
+    destruct (memf p (a_p a)) eqn:Em.
+    + destruct (F _ Em) as [F1 F2]. unfold pstat in F1, F2.
+      destruct (pt (xs x1) p); [|discriminate]. destruct (pt (xs x2) p); [|discriminate].
+      eapply IHc2; [exact Ha | exact HX].
+    + destruct (memf p (a_n a)) eqn:En; [|discriminate].
+      destruct (G _ En) as [G1 G2]. rewrite G1, G2.
+      eapply IHc1; [exact Ha | exact HX].
   - (* CIf *)
     cbn [ana] in Ha. cbn [exec]. destruct (aeval a e) as [v|] eqn:Ev.
     + destruct (aeval_sound en _ _ _ _ _ HR Ev) as [V1 V2]. rewrite V1, V2.
